@@ -218,7 +218,10 @@ template<typename W> struct CmExec {
           // the confidence clause on a fresh sketch and a skewed stream: h heavy items (each heavier than relative_error * total weight) and 2000 unit items.
           // A light item is over-estimated by more than relative_error * total only if it meets a heavy one in EVERY row: about (h / buckets)^rows of
           // them, against the e^-rows the configuration allows - rows 3..5, h / buckets = 1/6, so the margin is 8x..32x and does not depend on luck
-          const uint8_t rows = static_cast<uint8_t>(3 + s.b % 3); const uint32_t buckets = static_cast<uint32_t>(40 + (s.c >> 6) % 30); const i64 heavy = buckets / 6, light = 2000; const u64 hw = 400 * (FRACTIONAL ? 4 : 1), lw = FRACTIONAL ? 4 : 1;
+          // (every fourth time: the smallest legal table, 3 buckets, one dominant item, 1..3 rows: a light item is off by more than the budget iff it shares the
+          // dominant item's bucket in every row, 3^-rows of them against the e^-rows allowed - 0.33/0.37, 0.11/0.135, 0.037/0.050, twelve standard deviations apart at 20000 items)
+          const bool tiny = (s.c & 12) == 12;
+          const uint8_t rows = static_cast<uint8_t>(tiny ? 1 + s.b % 3 : 3 + s.b % 3); const uint32_t buckets = tiny ? 3u : static_cast<uint32_t>(40 + (s.c >> 6) % 30); const i64 heavy = tiny ? 1 : buckets / 6, light = tiny ? 20000 : 2000; const u64 hw = (tiny ? 400000 : 400) * (FRACTIONAL ? 4 : 1), lw = FRACTIONAL ? 4 : 1;
           S sk(rows, buckets, seed + static_cast<u64>(s.b), talloc<W>(1));
           for (i64 i = 0; i < heavy; i++) apply(sk, key(1000000 + i * 7919 + s.b, false), hw);
           for (i64 i = 0; i < light; i++) apply(sk, key(i * 31 + s.b, (s.c & 1) != 0), lw);
@@ -434,7 +437,9 @@ struct C16World: World {
       ctx.begin_step(idx++, s.kind);
       Node& n = nodes[static_cast<size_t>(s.a) % nodes.size()];
       switch (s.kind) {
-        case A_BATCH: { const i64 count = s.c / 64, pat = s.c % 64; for (i64 j = 0; j < count; j++) { const i64 id = next_id++; const double wt = vo_weight(id + s.b, pat); n.sk->update(id, wt); n.in[id] = wt; n.total += wt; n.n++; } break; }
+        case A_BATCH: { const i64 count = s.c / 64, pat = s.c % 64; for (i64 j = 0; j < count; j++) { const i64 id = next_id++; const double wt = vo_weight(id + s.b, pat);
+            if ((pat & 32) && j % 13 == 5) { n.sk->update(-1000000 - id, 0.0); ctx.probe("zero_weight_update"); }   // a weight of exactly zero is accepted and ignored: not an item, not counted
+            n.sk->update(id, wt); n.in[id] = wt; n.total += wt; n.n++; } break; }
         case A_UNION: {
           // union of two or three pool sketches in scheduler order; the result replaces the target
           Node& b = nodes[static_cast<size_t>(s.b) % nodes.size()]; const uint32_t max_k = std::max<uint32_t>(1, static_cast<uint32_t>(1 + (s.c % 40)));
